@@ -5,7 +5,7 @@ an AnalysisError."""
 from __future__ import annotations
 
 import ast
-from typing import Dict, Iterable, List, Optional, Set, Tuple
+from typing import Any, Dict, Iterable, List, Optional, Set, Tuple
 
 from .cfg import CFG, Node
 from .model import AnalysisError, Module, Repo, attr_chain, norm, walk_local
@@ -41,6 +41,7 @@ class ParserModel:
         self._alias: Dict[str, Dict[str, Tuple[str, ...]]] = {}
         self.dispatch: Dict[str, str] = {}
         self.dispatch_node: Optional[ast.Dict] = None
+        self.dispatch_extra: Dict[str, Tuple[Any, ...]] = {}
         self._find_dispatch()
         self.calls: Dict[str, Set[str]] = {}
         self._build_callgraph()
@@ -130,8 +131,12 @@ class ParserModel:
         for st in walk_local(parse):
             if isinstance(st, (ast.Assign, ast.AnnAssign)) and isinstance(getattr(st, "value", None), ast.Dict):
                 d: ast.Dict = st.value  # type: ignore
+                def handler_expr(v: ast.AST) -> bool:
+                    return (isinstance(v, ast.Attribute) and isinstance(v.value, ast.Name) and v.value.id == "self") or isinstance(v, ast.Lambda)
+
+                # a value is a handler, or a tuple of a handler and constants that travel with it
                 if d.values and all(
-                    (isinstance(v, ast.Attribute) and isinstance(v.value, ast.Name) and v.value.id == "self") or isinstance(v, ast.Lambda)
+                    handler_expr(v) or (isinstance(v, ast.Tuple) and v.elts and handler_expr(v.elts[0]) and all(isinstance(x, ast.Constant) for x in v.elts[1:]))
                     for v in d.values
                 ):
                     if best is None or len(d.values) > len(best.values):
@@ -142,6 +147,9 @@ class ParserModel:
         for k, v in zip(best.keys, best.values):
             if not (isinstance(k, ast.Constant) and isinstance(k.value, str)):
                 raise AnalysisError("dispatch table key is not a string constant")
+            if isinstance(v, ast.Tuple):
+                self.dispatch_extra[k.value] = tuple(x.value for x in v.elts[1:])  # type: ignore[attr-defined]
+                v = v.elts[0]
             if isinstance(v, ast.Lambda):
                 self.dispatch[k.value] = "<lambda>"
             else:
